@@ -1892,4 +1892,61 @@ theorem addLoop_recOK {cfg : Sites} {sch : Schema} {black : Bool} (huniq : sch.u
         | _ => simp at hsh
 
 
+
+/-! ## Part 2g: NewFieldMask -/
+
+theorem expandAll_cons (t : ATree) (ts : List ATree) : expandAll (t :: ts) = t.expand ++ expandAll ts := by
+  simp [expandAll]
+
+/-- NewFieldMask's loop over the path strings -/
+theorem newMask_rep {cfg : Sites} {sch : Schema} {black : Bool} (huniq : sch.uniqueIds = true)
+    {desc d : Ty} (hd : sch.unwrap desc = some d) :
+    ∀ (paths : List Bytes) (m : Mask) (P : List APath) (ts : List ATree),
+      RepF sch black d m P → pathsMeaning cfg sch d m.typ paths = .ok ts →
+      (P ++ expandAll ts).Pairwise NC →
+      ∃ m', newMask cfg sch desc black paths m = .ok m' ∧ RepF sch black d m' (P ++ expandAll ts) := by
+  intro paths
+  induction paths with
+  | nil =>
+    intro m P ts hm hmean _
+    simp only [pathsMeaning, Res.ok.injEq] at hmean
+    subst hmean
+    exact ⟨m, rfl, by simpa [expandAll] using hm⟩
+  | cons p ps ih =>
+    intro m P ts hm hmean hnc
+    simp only [pathsMeaning] at hmean
+    rw [Res.bind_eq_ok] at hmean
+    obtain ⟨t, ht, hmean⟩ := hmean
+    rw [Res.bind_eq_ok] at hmean
+    obtain ⟨ts', hts', hmean⟩ := hmean
+    simp only [Res.ok.injEq] at hmean
+    subst hmean
+    rw [expandAll_cons, ← List.append_assoc] at hnc ⊢
+    obtain ⟨m1, h1, h2, h3⟩ := (addLoop_recOK (cfg := cfg) (black := black) huniq (p.length + 1)).ins m p d P t hm ht
+      (List.pairwise_append.mp hnc).1
+    obtain ⟨m', h4, h5⟩ := ih m1 _ ts' (Or.inr h2) (by rw [h3]; exact hts') hnc
+    refine ⟨m', ?_, h5⟩
+    simp only [newMask, addPath, hd, liftO, Res.ok_bind, h1]
+    exact h4
+
+theorem Mask.zero_fresh (black : Bool) : (Mask.zero.setIsBlack black).Fresh black :=
+  ⟨rfl, rfl, rfl, rfl, rfl, rfl, rfl, rfl, rfl⟩
+
+theorem Sel_eq_SelN {black : Bool} {P : List APath} (h : P ≠ []) (q : List QStep) : Sel black P q = SelN black P q := by
+  unfold Sel SelN
+  cases black with
+  | true => rfl
+  | false =>
+    cases P with
+    | nil => exact absurd rfl h
+    | cons p P' => simp
+
+theorem walk_untyped {cfg : Sites} {m : Mask} (h : m.typ = .invalid) (q : List QStep) :
+    walk cfg (.some m) q = .ok true := by
+  cases q with
+  | nil => rfl
+  | cons s qs =>
+    simp only [walk, query, h, ↓reduceIte, Res.ok_bind, walk_none]
+
+
 end FieldMask
